@@ -2,14 +2,24 @@ import Isotp.PyAgree.EvalLemmas
 import Isotp.Pdu
 /-!
   `PDU.__init__` (isotp/protocol.py), as dumped in `Src.PDU_init`, is the model's `decode`, for ALL byte lists and start offsets.
+  Environment: `pduEnv data start` (`msg.data`, `start_of_data`, the class constants); the function assigns `self.*` as it goes.
 
-  * `pdu_init_rejects`  : `decode = none`   → the interpreted source raises `ValueError` (every rejection is a `ValueError`:
-                          no `IndexError` / `TypeError` / unsupported-construct path is reachable)
-  * `pdu_init_accepts`  : `decode = some d` → the run falls off the end (`None`) and the object holds the decoded fields
-  * `pdu_init_isOk`     : the run succeeds exactly when `decode` does
+  * `pdu_init_rejects` (A) : `decode = none`    → the interpreted source raises `ValueError` (EVERY rejection is a `ValueError`:
+                             no `IndexError` / `TypeError` / `AttributeError` / unsupported-construct path is reachable)
+  * `pdu_init_accepts` (B) : `decode = some dd` → the run falls off the end (`None`) and the object holds `fieldsOf dd`
+                             (`can_dl`, `rx_dl`, `type`, and the fields of the frame kind); a Flow Control has `stmin_sec ≠ None`
+  * `pdu_init_isOk`        : the run succeeds exactly when `decode` does
 
-  Structure of the proof = structure of the source: prologue (13 statements), the `hnb` statement, the dispatch on
-  `self.type`, and one lemma per frame-type branch.
+  Structure of the proof = structure of the source (`PDU_init_shape`, `dispatch_shape`, both by `rfl` on the generated text):
+  prologue (13 statements: `prologue_reject` / `prologue_ok`), the `hnb` statement (`hnb_empty` / `hnb_unknown` / `hnb_ok`),
+  the dispatch on `self.type` (`dispatch_sf` ...), one lemma per frame-type branch (`sf_branch`, `ff_branch`, `cf_branch`,
+  `fc_branch`: the branch agrees with `decodeBody`), assembled in `body_agrees`.
+
+  Evaluation is by `pdu_eval`: `simp only` with the interpreter's equations and value-level lemmas (never `evalCmp` / `evalBinop` /
+  `bind` themselves); every guard is decided by `omega` as the discharger (`ite_decide_pos` / `ite_decide_neg`, `index_ok`).
+  Proof-engineering note: several rewrite rules are `rfl`-lemmas, so the kernel re-checks some steps by conversion; it must never
+  be led to compute with `_ * 16777216` on symbolic bytes (unary recursion on the literal), hence the 32-bit First Frame length is
+  kept as an atom `L` in that leaf.
 -/
 namespace Isotp.PyAgree
 open Isotp Isotp.Py
@@ -142,7 +152,7 @@ macro "pdu_eval" "[" ts:Lean.Parser.Tactic.simpLemma,* "]" : tactic =>
       ↓reduceIte, cmp_lt_pint, cmp_gt_pint, cmp_le_pint, cmp_ge_pint, cmp_eq_pint, cmp_ne_pint, bi_len, bi_int, bi_bytes0,
       bi_max8, bi_min_sub, natIdx_nat, natIdx_0, natIdx_1, natIdx_2, natIdx_3, natIdx_4, natIdx_5, natIdx_6, index_ok, shr4_ev, band15_ev, shl_ev, bor_ev, truediv_ev, evalBinop_sub, raise_VE,
       float_beq_none, none_beq_none, ite_decide_pos, ite_decide_neg, ite_tt, ite_ff, truthy_pbool, Int.toNat_natCast,
-      Int.reduceToNat, shl8_or, be32, $ts,*])
+      Int.reduceToNat, shl8_or, $ts,*])
 
 /-! ### the source, cut along its structure -/
 
@@ -334,5 +344,174 @@ macro "leaf" "[" ts:Lean.Parser.Tactic.simpLemma,* "]" : tactic =>
 macro "post_tac" "[" ts:Lean.Parser.Tactic.simpLemma,* "]" : tactic =>
   `(tactic| (constructor <;> simp [pduFields, isFc, set_apply, $ts,*]))
 
+
+theorem sf_branch (env : Env) (d : Bytes) (hr : Ready env d) (hn : 0 < d.length) (h0 : byteAt d 0 / 16 = 0) :
+    Outcome env 0 (execBlock noMeths env sfBranch) (decodeBody d) := by
+  have hb0 := byteAt_lt d 0
+  have hb1 := byteAt_lt d 1
+  simp only [sfBranch, thenOf, dispatchStmt, bhead, bdrop, Src.PDU_init]
+  by_cases hlp : byteAt d 0 % 16 = 0
+  · by_cases h2 : d.length < 2
+    · leaf [hr.md, hr.dl]
+    · by_cases hl0 : byteAt d 1 = 0
+      · leaf [hr.md, hr.dl]
+      · by_cases hl : byteAt d 1 > d.length - 2
+        · leaf [hr.md, hr.dl]
+        · leaf [hr.md, hr.dl]
+          exact ⟨rfl, _, rfl, by post_tac []⟩
+  · by_cases hl : byteAt d 0 % 16 > d.length - 1
+    · leaf [hr.md, hr.dl]
+    · leaf [hr.md, hr.dl]
+      exact ⟨rfl, _, rfl, by post_tac [hr.es]⟩
+
+theorem ff_branch (env : Env) (d : Bytes) (hr : Ready env d) (hn : 0 < d.length) (h0 : byteAt d 0 / 16 = 1) :
+    Outcome env 1 (execBlock noMeths env ffBranch) (decodeBody d) := by
+  have hb0 := byteAt_lt d 0
+  have hb1 := byteAt_lt d 1
+  have hb3 := byteAt_lt d 3
+  have hb4 := byteAt_lt d 4
+  have hb5 := byteAt_lt d 5
+  simp only [ffBranch, ffStmt, elseOf, thenOf, dispatchStmt, bhead, bdrop, Src.PDU_init]
+  by_cases h2 : d.length < 2
+  · leaf [hr.md, hr.dl]
+  · by_cases hlp : byteAt d 0 % 16 * 256 + byteAt d 1 = 0
+    · by_cases h6 : d.length < 6
+      · leaf [hr.md, hr.dl]
+      · -- the 32-bit length is kept as an atom `L` (the kernel must never compute with `_ * 16777216`)
+        obtain ⟨L, hL⟩ : ∃ L, L = byteAt d 2 * 16777216 + byteAt d 3 * 65536 + byteAt d 4 * 256 + byteAt d 5 := ⟨_, rfl⟩
+        simp (disch := omega) only [decodeBody, if_pos, if_neg, ne_eq, Outcome]
+        rw [← hL]
+        pdu_eval [hr.md, hr.dl, (be32 _ _ _ _ hb3 hb4 hb5).trans hL.symm]
+        exact ⟨rfl, _, rfl, by post_tac []⟩
+    · leaf [hr.md, hr.dl]
+      exact ⟨rfl, _, rfl, by post_tac [hr.es]⟩
+
+theorem cf_branch (env : Env) (d : Bytes) (hr : Ready env d) (hn : 0 < d.length) (h0 : byteAt d 0 / 16 = 2) :
+    Outcome env 2 (execBlock noMeths env cfBranch) (decodeBody d) := by
+  simp only [cfBranch, cfStmt, ffStmt, elseOf, thenOf, dispatchStmt, bhead, bdrop, Src.PDU_init]
+  leaf [hr.md, hr.dl]
+  exact ⟨rfl, _, rfl, by post_tac []⟩
+
+theorem fc_branch (env : Env) (d : Bytes) (hr : Ready env d) (hn : 0 < d.length) (h0 : byteAt d 0 / 16 = 3) :
+    Outcome env 3 (execBlock noMeths env fcBranch) (decodeBody d) := by
+  simp only [fcBranch, fcStmt, cfStmt, ffStmt, elseOf, thenOf, dispatchStmt, bhead, bdrop, Src.PDU_init]
+  by_cases h3 : d.length < 3
+  · leaf [hr.md, hr.dl]
+  · by_cases hfs : byteAt d 0 % 16 ≥ 3
+    · leaf [hr.md, hr.dl]
+    · by_cases hs1 : byteAt d 2 ≤ 127
+      · leaf [hr.md, hr.dl, hr.ss]
+        exact ⟨rfl, _, rfl, by post_tac [float_beq_none]⟩
+      · by_cases hs2 : 241 ≤ byteAt d 2
+        · by_cases hs3 : byteAt d 2 ≤ 249
+          · leaf [hr.md, hr.dl, hr.ss]
+            exact ⟨rfl, _, rfl, by post_tac [float_beq_none]⟩
+          · leaf [hr.md, hr.dl, hr.ss]
+        · leaf [hr.md, hr.dl, hr.ss]
+
+/-! ### assembling the stages -/
+
+/-- everything after the prologue, on the body `d = msg.data[start_of_data:]` -/
+theorem body_agrees (env : Env) (d : Bytes) (hr : Ready env d) :
+    match decodeBody d with
+    | none => execBlock noMeths env (.cons hnbStmt (.cons dispatchStmt .nil)) = .error (.exc .ValueError)
+    | some p => typeCode p = byteAt d 0 / 16 ∧
+        ∃ env', execBlock noMeths env (.cons hnbStmt (.cons dispatchStmt .nil)) = .ok (.next env') ∧ Post (envHnb env d) env' p := by
+  by_cases hn : d.length = 0
+  · have hm : decodeBody d = none := by simp (disch := omega) only [decodeBody, if_pos]
+    simp only [hm, execBlock, hnb_empty env d hr hn, error_bind]
+  · have hn' : 0 < d.length := by omega
+    by_cases h3 : byteAt d 0 / 16 ≤ 3
+    · have hr1 := ready_hnb env d hr
+      have ht := envHnb_type env d
+      have hrun : execBlock noMeths env (.cons hnbStmt (.cons dispatchStmt .nil))
+          = execStmt noMeths (envHnb env d) dispatchStmt := by
+        rw [execBlock, hnb_ok env d hr hn' h3]
+        exact execBlock_single _ _ _
+      rw [hrun]
+      have hcases : byteAt d 0 / 16 = 0 ∨ byteAt d 0 / 16 = 1 ∨ byteAt d 0 / 16 = 2 ∨ byteAt d 0 / 16 = 3 := by omega
+      rcases hcases with h | h | h | h
+      · rw [dispatch_sf _ d hr1 (by rw [ht, h]; rfl)]
+        have := sf_branch _ d hr1 hn' h
+        rw [h]
+        cases hd : decodeBody d <;> rw [hd] at this <;> exact this
+      · rw [dispatch_ff _ d hr1 (by rw [ht, h]; rfl)]
+        have := ff_branch _ d hr1 hn' h
+        rw [h]
+        cases hd : decodeBody d <;> rw [hd] at this <;> exact this
+      · rw [dispatch_cf _ d hr1 (by rw [ht, h]; rfl)]
+        have := cf_branch _ d hr1 hn' h
+        rw [h]
+        cases hd : decodeBody d <;> rw [hd] at this <;> exact this
+      · rw [dispatch_fc _ d hr1 (by rw [ht, h]; rfl)]
+        have := fc_branch _ d hr1 hn' h
+        rw [h]
+        cases hd : decodeBody d <;> rw [hd] at this <;> exact this
+    · have hm : decodeBody d = none := by simp (disch := omega) only [decodeBody, if_neg]
+      simp only [hm, execBlock, hnb_unknown env d hr hn' (by omega), error_bind]
+
+/-- the attributes of the constructed object, as the model's `Decoded` gives them -/
+def fieldsOf (dd : Decoded) : List (String × PV) :=
+  [("self.can_dl", pint dd.canDl), ("self.rx_dl", pint dd.rxDl), ("self.type", pint (typeCode dd.pdu))] ++ pduFields dd.pdu
+
+/-- **A (rejection)**: whenever the model rejects, the interpreted `PDU.__init__` raises `ValueError`
+    (never `IndexError`, `TypeError`, or an unsupported construct). -/
+theorem pdu_init_rejects (data : Bytes) (start : Nat) (h : decode data start = none) :
+    runFn noMeths (pduEnv data start) Src.PDU_init = .error (.exc .ValueError) := by
+  unfold runFn
+  by_cases hs : data.length < start
+  · rw [prologue_reject data start hs]
+  · rw [prologue_ok data start hs]
+    have hb := body_agrees _ _ (ready_prologue data start)
+    cases hd : decodeBody (data.drop start) with
+    | none => rw [hd] at hb; rw [hb]
+    | some p => simp [decode, hs, hd] at h
+
+/-- **B (acceptance)**: whenever the model accepts, the interpreted `PDU.__init__` returns `None` and the object holds the
+    decoded fields (and `stmin_sec` is set for a Flow Control). -/
+theorem pdu_init_accepts (data : Bytes) (start : Nat) (dd : Decoded) (h : decode data start = some dd) :
+    ∃ env', runFn noMeths (pduEnv data start) Src.PDU_init = .ok (pnone, env') ∧
+      (∀ kv ∈ fieldsOf dd, env' kv.1 = some kv.2) ∧
+      (isFc dd.pdu = true → ∃ v, env' "self.stmin_sec" = some v ∧ v ≠ pnone) := by
+  unfold runFn
+  by_cases hs : data.length < start
+  · simp [decode, hs] at h
+  · rw [prologue_ok data start hs]
+    have hb := body_agrees _ _ (ready_prologue data start)
+    cases hd : decodeBody (data.drop start) with
+    | none => simp [decode, hs, hd] at h
+    | some p =>
+      rw [hd] at hb
+      obtain ⟨htc, env', hrun, hpost⟩ := hb
+      have hdd : dd = { pdu := p, canDl := data.length, rxDl := max 8 data.length } := by
+        simp [decode, hs, hd] at h; exact h.symm
+      subst hdd
+      refine ⟨env', by rw [hrun], ?_, hpost.stminSec⟩
+      intro kv hkv
+      simp only [fieldsOf, List.cons_append, List.nil_append, List.mem_cons] at hkv
+      rcases hkv with rfl | rfl | rfl | hkv
+      · rw [hpost.canDl]; simp only [envHnb, envPrologue, set_apply, String.reduceEq, ↓reduceIte]
+      · rw [hpost.rxDl]; simp only [envHnb, envPrologue, set_apply, String.reduceEq, ↓reduceIte]
+      · rw [hpost.type, envHnb_type, htc]
+      · exact hpost.fields kv hkv
+
+/-- **completeness of the case split**: the run succeeds exactly when the model decodes. -/
+theorem pdu_init_isOk (data : Bytes) (start : Nat) :
+    (runFn noMeths (pduEnv data start) Src.PDU_init).isOk = (decode data start).isSome := by
+  cases h : decode data start with
+  | none => rw [pdu_init_rejects data start h]; rfl
+  | some dd =>
+    obtain ⟨env', hrun, -⟩ := pdu_init_accepts data start dd h
+    rw [hrun]; rfl
+
+/-! non-vacuity of the hypotheses of A and B -/
+example : decode [] 0 = none := by decide
+example : decode [0x02, 0xAA, 0xBB] 1 = none := by decide
+example : decode [0x02, 0xAA, 0xBB] 0 = some { pdu := .sf 2 [0xAA, 0xBB] false, canDl := 3, rxDl := 8 } := by decide
+example : decode [0x30, 0x08, 0x14] 0 = some { pdu := .fc 0 8 20, canDl := 3, rxDl := 8 } := by decide
+
+#print axioms pdu_init_rejects
+#print axioms pdu_init_accepts
+#print axioms pdu_init_isOk
 
 end Isotp.PyAgree
